@@ -97,6 +97,11 @@ def generate(rng, i, tier):
             if rng.random() < 0.2:
                 # append()/replace() change the headers or the line in place: nothing of that may survive into another job
                 m["comps"].insert(rng.randint(0, len(m["comps"])), gen.zoo_comp(rng, ["id"] + [str(c) for c in range(1, ncol)], 40 + j, gen.ZOO_REWRITE))
+            if rng.random() < 0.12:
+                # mode settings in the comment: the list of expected result files, kept unmatched lines
+                m["modes"] = {"files-mode": rng.choice(["all", "data", "data, unmatched", "printouts", "unmatched", "data, printouts, unmatched"])}
+                if rng.random() < 0.5:
+                    m["modes"]["unmatched-mode"] = "keep"
             if rng.random() < 0.3:
                 # literals with blanks in them (see ws_sibling)
                 m["comps"].insert(rng.randint(0, len(m["comps"])), rng.choice(LIT_COMPS))
@@ -527,6 +532,7 @@ def execute(sc):
         out.probe("two jobs that differ only by blanks inside a string literal", any(ws_sibling(a["member"]) == b["member"] for a in jobs for b in jobs if a is not b))
         out.probe("file replaced between two jobs over the same path", False)
         out.probe("cache with half of an entry missing", False)
+        out.probe("jobs with different files-mode settings in one process", len({json.dumps((j["member"].get("modes") or {}).get("files-mode")) for j in jobs}) > 1)
         out.probe("job after a job that met a transient read error on the same file", any(a.get("read_fault") and a["file"] == b["file"] for x, a in enumerate(jobs) for b in jobs[x + 1 :]))
         out.probe("external function loaded from a job's own imports file after a csvpath with an unknown function", any(j.get("imports") for j in jobs) and any(j["member"]["comps"] == ["nosuchfunction()"] for j in jobs))
         out.probe("one file read with two dialects in one process", any(a["file"] == b["file"] and (a.get("read_as") or None) != (b.get("read_as") or None) for a in jobs for b in jobs))
